@@ -10,6 +10,7 @@ import (
 	"os/exec"
 	"path/filepath"
 	"sort"
+	"strconv"
 	"strings"
 	"sync"
 	"time"
@@ -231,6 +232,9 @@ const modelBytes = 64
 // dumpCore writes a query whose path-condition conjuncts are individually named, for unsat-core inspection.
 func dumpCore(g *Group, file string) {
 	o := g.Obls[0]
+	if k, err := strconv.Atoi(os.Getenv("GOVC_CORE_PATH")); err == nil && k < len(g.Obls) {
+		o = g.Obls[k]
+	}
 	p := NewPrinter()
 	var names []string
 	var conj []*Term
@@ -240,6 +244,9 @@ func dumpCore(g *Group, file string) {
 		conj = []*Term{o.PC}
 	}
 	conj = append(conj, boundFactsFor(conj...)...)
+	if os.Getenv("GOVC_CORE_GOAL") != "" {
+		conj = append(conj, Not(o.Goal))
+	}
 	for _, c := range conj {
 		names = append(names, p.ref(c))
 	}
